@@ -18,7 +18,7 @@ PROPS = {}
 _WIP = "check not built yet in this round (planned, see DESIGN.md section 5)"
 NOT_APPLICABLE = {
     "C01": _WIP, "C02": _WIP, "C04": _WIP, "C06": _WIP, "C09": _WIP,
-    "C11": _WIP, "C12": _WIP, "C14": _WIP, "C15": _WIP,
+    "C11": _WIP, "C12": _WIP, "C15": _WIP,
     "C03": "accept/reject and AST construction live in a proc-macro-generated PEG parser over `str`; Verus cannot reason about str/macro output and Kani cannot carry a symbolic text past the mandatory header, so no contract within reach states 'accepts exactly this language'",
     "C16": "composes core::fmt/pad string formatting with the pest parser over all ASTs; both halves are str-level and outside what Verus accepts or Kani can bound meaningfully",
     "C17": "behaviour is spread over crossterm event polling, tui rendering, a nom grammar over str and a filesystem completer: terminal/filesystem effects and string combinators neither verifier can execute or specify",
@@ -108,5 +108,21 @@ PROPS["C07"] = {
     "bounded": ["c07_load: image length <= 6 bytes over three lines (unwind 10); the fill loop is uniform in the address"],
     "samples": [{"obligation": "C07.R.master.bus-and-board", "text": "master_reset: inputs/timer/outputs/MICR/UCR power-on, board outputs/DAICR/fan/UIO directions power-on, RAM and board inputs bit-identical", "domain": "every field of RawMachine symbolic incl. all f32 bit patterns"}],
     "trusted": [],
+    "assumptions": [],
+}
+
+PROPS["C14"] = {
+    "inject": [ST_BOARD, ST_BUS, ("emulator-2a-lib/src/machine/board.rs", "c14_board.rs", "verif_c14"),
+               ("emulator-2a-lib/src/machine/bus.rs", "c14_bus.rs", "verif_c14u")],
+    "functions": ["Board::set_temp", "Board::set_analog_input1/2", "Board::set_digital_output1/2", "Board::set_jumper1/2", "Board::set_digital_input1",
+                  "Board::set_universal_input_output1/2/3", "Board::set_uor/set_udr/set_icr/delete_int_ff", "Board::get_fan_period",
+                  "Board::update_comp1/update_comp2 (through their callers)", "Bus::write 0xF0-0xF3", "Bus::read 0xF0-0xF3"],
+    "timeout": 900,
+    "technique": "data-structure invariant (I.board) + exact per-operation postconditions with whole-board frame, f32 arguments fully symbolic (CBMC IEEE-754), Kani/CBMC",
+    "level_text": "Proof: every board operation is given its exact post-state (clamping, DAC voltage, comparator bit, exact DAISR = edge raised iff the selected source makes its configured transition, everything else bit-identical) and shown to preserve the board invariant from every invariant-satisfying board, for all byte values and all 2^32 f32 patterns; by induction from Board::new() the statement holds after any sequence.",
+    "level_note": "Trusted: Kani/CBMC incl. its IEEE-754 float model, rustc. Histories start at Board::new() and consist of port writes and external setters (resets are C07's and do not recompute comparators). Effects of UOR/ICR writes beyond the statement are characterised from the pinned tree. Fan law checked within 1 LSB (rpm is stored as an integer).",
+    "samples": [{"obligation": "C14.B.edge.comp1-by-dac-write", "text": "DAISR' == DAISR | (source==COMP1 & transition matches FALLING ? SOURCE|INT_FF : 0)", "domain": "symbolic board x 256 bytes"},
+                {"obligation": "C14.B.clamp.temperature", "text": "forall v: f32 (all bit patterns). temp' == clamp(v), NaN -> 0", "domain": "2^32 patterns, symbolic"}],
+    "trusted": ["CBMC's IEEE-754 semantics for f32 compare, divide, int->float and float->int casts"],
     "assumptions": [],
 }
